@@ -38,7 +38,8 @@ import (
 //   o.aq.stress <cap> <maxBatch> <pushers> <poppers> <pushes> <perPush> <seed>   -> ok | <what failed>
 //     free-running goroutines on the real queue (no schedule control); oracle only.
 //
-// Oracle (independent of the model): batches <= maxBatch; the popped alerts, in pop order, are a
+// Oracle (independent of the model): the batches equal those of a reference bounded FIFO (append, drop from
+// the front while over capacity, pop up to maxBatch from the front) driven in the same order; batches <= maxBatch; the popped alerts, in pop order, are a
 // subsequence of the kept pushed alerts in push order (no duplicate, nothing invented); Len() <= cap
 // after every step; at the end "alerts queued => token present" (nobody is between receive and
 // body then), and the queue can actually be drained without blocking; popped + dropped + left =
@@ -201,6 +202,29 @@ func c46ExecRun(c *hlib.Ctx, tok []string) string {
 	q, reg := c46NewQueue(cap, mb)
 	r := &c46Run{q: q, mu: alert.VerifMutex(q), morec: alert.VerifMorec(q), maxBatch: mb}
 	var kept []int // what relabelling keeps, in push order
+	// reference bounded FIFO (the specification, not the code's two truncation rules): append, then
+	// drop from the front while over capacity; a pop takes up to maxBatch from the front
+	var ref []int
+	var refBatches []string
+	refPush := func(as []c46Alert) {
+		for _, a := range as {
+			if a.keep {
+				ref = append(ref, a.id)
+			}
+		}
+		for len(ref) > cap {
+			ref = ref[1:]
+		}
+	}
+	refPop := func() {
+		n := min(mb, len(ref))
+		ids := make([]string, n)
+		for i := 0; i < n; i++ {
+			ids[i] = strconv.Itoa(ref[i])
+		}
+		ref = ref[n:]
+		refBatches = append(refBatches, "b"+hlib.Join(ids, ","))
+	}
 	var waitDone chan struct{}
 	var waitTerm chan struct{}
 	// a popper left waiting is always released, also when the schedule is abandoned half-way
@@ -246,6 +270,7 @@ func c46ExecRun(c *hlib.Ctx, tok []string) string {
 				if !syncPop() {
 					return "hang"
 				}
+				refPop()
 				break
 			}
 			term := make(chan struct{})
@@ -270,6 +295,7 @@ func c46ExecRun(c *hlib.Ctx, tok []string) string {
 				return "bad-op"
 			}
 			keepIDs(as)
+			refPush(as)
 			q.Push(c46MkAlerts(as))
 			if waitDone != nil {
 				// either the waiting popper got the token inside Push and finishes, or it still waits
@@ -287,6 +313,7 @@ func c46ExecRun(c *hlib.Ctx, tok []string) string {
 				}
 				if woken {
 					waitDone, waitTerm = nil, nil
+					refPop()
 				}
 			}
 		case strings.HasPrefix(it, "R"):
@@ -316,6 +343,7 @@ func c46ExecRun(c *hlib.Ctx, tok []string) string {
 				if e == "g" {
 					go func() { r.record(q.Pop(nil), "nil"); close(done) }()
 					queued++
+					refPop()
 				} else if strings.HasPrefix(e, "p") {
 					as, ok := c46ParseAlerts(e[1:])
 					if !ok {
@@ -324,6 +352,7 @@ func c46ExecRun(c *hlib.Ctx, tok []string) string {
 						break
 					}
 					keepIDs(as)
+					refPush(as)
 					go func() { q.Push(c46MkAlerts(as)); close(done) }()
 					if len(as) > 0 {
 						queued++ // an empty push returns before it locks
@@ -360,6 +389,15 @@ func c46ExecRun(c *hlib.Ctx, tok []string) string {
 	answer := fmt.Sprintf("%s len=%d tok=%d", hlib.Join(r.events, ";"), finalLen, finalTok)
 
 	// ---- oracle
+	var gotBatches []string
+	for _, e := range r.events {
+		if strings.HasPrefix(e, "b") && e != "blocked" {
+			gotBatches = append(gotBatches, e)
+		}
+	}
+	if strings.Join(gotBatches, ";") != strings.Join(refBatches, ";") {
+		c.Violation("not-a-bounded-fifo", fmt.Sprintf("batches %v, a FIFO of capacity %d that drops its oldest entries gives %v", gotBatches, cap, refBatches))
+	}
 	if r.tooBig {
 		c.Violation("batch-too-big", fmt.Sprintf("a popped batch is larger than maxBatchSize %d", mb))
 	}
